@@ -42,6 +42,54 @@ def plan(tier, seed):
 BAD_KEYS = ["a b", "ä", "a@b", "g/a b", "g/ä/x", "tab\tkey", "@"]
 
 
+def check_marker_forms(cls_name, in_patch, rec):
+    """The reserved deletion-marker value, however it reaches the container, is either refused loudly or stored as a
+    visible value - never accepted and then treated as 'deleted'."""
+    import numpy as np
+
+    M = b"\x7f"
+    forms = [
+        ("setitem_void", lambda r: r.__setitem__("x", np.void(M))),
+        ("setitem_0d", lambda r: r.__setitem__("x", np.asarray(np.void(M)))),
+        ("create_dataset_bytes_dtype", lambda r: r.create_dataset("x", data=M, dtype="V1")),
+        ("create_dataset_uint8_dtype", lambda r: r.create_dataset("x", data=np.uint8(127), dtype="V1")),
+        ("create_dataset_array_shape", lambda r: r.create_dataset("x", data=np.array([M], "V1"), shape=())),
+        ("require_dataset_data", lambda r: r.require_dataset("x", shape=(), dtype="V1", data=M)),
+        ("dataset_assign", lambda r: (r.create_dataset("x", data=np.void(b"\x00")), r["x"].__setitem__((), np.void(M)))),
+        ("dataset_assign_0d", lambda r: (r.create_dataset("x", data=np.void(b"\x00")), r["x"].__setitem__((), np.asarray(np.void(M))))),
+        ("attr_void", lambda r: r["keep"].attrs.__setitem__("x", np.void(M))),
+        ("attr_0d", lambda r: r["keep"].attrs.__setitem__("x", np.asarray(np.void(M)))),
+    ]
+    for name, fn in forms:
+        t = _mk(cls_name)()
+        try:
+            r = t.rec
+            r["keep"] = 1
+            if in_patch:
+                r["x"] = 5  # something older at that path
+                r["keep"].attrs["x"] = 5
+                t.commit()
+                del r["x"]
+                del r["keep"].attrs["x"]
+            case = dict(kind="marker", cls=cls_name, in_patch=in_patch, form=name)
+            try:
+                fn(r)
+                raised = False
+            except Exception:  # noqa: BLE001
+                raised = True
+            if not raised:
+                where = r["keep"].attrs if name.startswith("attr") else r
+                visible = "x" in where and bytes(np.asarray(where["x"] if name.startswith("attr") else where["x"][()]).tobytes()) == M
+                if not visible:
+                    rec.fail(f"C01:marker-value-stored-silently:{name}", case, f"{name}: accepted, but 'x' is "
+                             f"{'absent' if 'x' not in where else 'something else'} afterwards", "refused loudly, or stored as a visible value")
+            elif name.startswith("dataset_assign") and ("x" not in r or bytes(r["x"][()].tobytes()) != b"\x00"):
+                rec.fail(f"C01:refused-marker-write-had-effect:{name}", case, "the dataset is gone / changed after the refused write", "unchanged")
+            rec.case(nt_key=[cls_name, in_patch, name], classes=["marker_form_" + ("refused" if raised else "stored_visibly")], sample=None)
+        finally:
+            t.destroy()
+
+
 def check_invalid_keys(cls_name, in_patch, rec):
     """Keys outside the documented alphabet (printable ASCII without blank and '@') are refused by EVERY entry point,
     with no effect - an accepted one would make a node that no other call can address."""
@@ -119,6 +167,7 @@ def run_shard(shard, tier, seed, rec):
         for cn in ("IH5Record", "IH5MFRecord"):
             for ip in (False, True):
                 check_invalid_keys(cn, ip, rec)
+                check_marker_forms(cn, ip, rec)
         return
     i = shard["i"]
     n = {"quick": 70, "thorough": 2500}[tier]
@@ -134,6 +183,8 @@ def replay(rp, rec):
     try:
         if rp["case"].get("kind") == "keys":
             check_invalid_keys(rp["case"]["cls"], rp["case"]["in_patch"], rec)
+        elif rp["case"].get("kind") == "marker":
+            check_marker_forms(rp["case"]["cls"], rp["case"]["in_patch"], rec)
         else:
             run_case(rp["case"], rec)
     except Violation as v:
